@@ -27,6 +27,9 @@ def main():
     checks = ALL
     tier = "quick"
     confirm = "--confirm" in opts
+    scale = ""
+    for o in opts:
+        if o.startswith("--scale-others="): scale = o.split("=",1)[1]
     for o in opts:
         if o.startswith("--checks="): checks = o.split("=",1)[1].split(",")
         if o.startswith("--tier="): tier = o.split("=",1)[1]
@@ -56,12 +59,14 @@ def main():
                 rc2, o2 = sh("go build ./... && go test -vet=off -count=1 ./...", cwd=wt)
                 res["suite_passes_with_patch"] = rc2 == 0
                 if rc2 != 0: res["suite_output"] = o2[-2000:]
-            env = dict(ENV, VERIF_REPO=wt, VERIF_OUT=out)
             for c in checks:
+                env = dict(ENV, VERIF_REPO=wt, VERIF_OUT=out)
+                if c != meta.get("property") and scale:
+                    env["VERIF_RUN_SCALE"] = scale
                 t0 = time.time()
                 rc, o = sh(f"/verif/check.sh {c} {tier}", cwd="/verif", env=env)
                 viol = re.findall(r"^violation: (.*)$", o, re.M)
-                res["checks"][c] = {"exit": rc, "violations": [v[:300] for v in viol][:4], "wall_s": round(time.time()-t0,1)}
+                res["checks"][c] = {"exit": rc, "run_scale": env.get("VERIF_RUN_SCALE", "1"), "violations": [v[:300] for v in viol][:4], "wall_s": round(time.time()-t0,1)}
                 if rc == 2: res["checks"][c]["fault"] = o[-600:]
                 if rc == 1 and c == meta.get("property"):
                     # keep the minimised replay of the target check next to the seeded defect
